@@ -8,12 +8,17 @@ from vlib import cz, clist, cbool
 # adds VerifWrapFlight to core/syncx (decorate ResourceManager.singleFlight with a gate)
 OVERLAY = {"core/syncx/verif_hooks.go": "/verif/harness/overlay/syncx/verif_hooks.go"}
 
-KIND = {0: "GSF", 1: "GLC", 2: "GRM", 3: "GSF", 4: "GSF", 5: "GSF", 6: "GSF", 7: "GSF"}
-EK = {"inv": 0, "fs": 1, "fe": 2, "ret": 3, "del": 5}
+KIND = {0: "GSF", 1: "GLC", 2: "GRM", 3: "GSF", 4: "GSF", 5: "GSF", 6: "GSF", 7: "GSF", 8: "GSF", 9: "GSF"}
+KNAME = {0: "sf.DoEx", 1: "lc.Do", 2: "rm.Get", 3: "sf.Do", 4: "collection.Cache.Take", 5: "cachenode.Take",
+         6: "collection.Cache.Del", 7: "cachenode.Del", 8: "cachenode.TakeWithExpire", 9: "cachenode.storefault"}
+EK = {"inv": 0, "fs": 1, "fe": 2, "ret": 3, "del": 5, "fault": 6}
+PANIC = -2      # err code: the user function panics (Model.epanic)
+NOTFOUND = 9    # err code: the cache node's not-found error (Check.enotfound)
+INST = 1000     # key // INST = instance of the primitive / cache (two instances per case)
 
 
 def is_cache(case):
-    return any(o[0] >= 4 for sc in case["scripts"] for o in sc)
+    return any(o[0] >= 4 for sc in case.get("scripts", []) for o in sc)
 
 
 def interleavings(counts):
@@ -31,7 +36,7 @@ def interleavings(counts):
 class C07(Property):
     id = "C07"
     title = "SingleFlight/LockedCalls: de-duplication without staleness, per-key exclusion"
-    quick_cases = 500
+    quick_cases = 950
     thorough_cases = 8000
     design_ref = "DESIGN.md §6/C07"
     level_text = ("Unbounded Rocq theorems over an interleaving model (any number of threads, any scripts of "
@@ -68,10 +73,10 @@ class C07(Property):
     # ---- generation -----------------------------------------------------------------
     @staticmethod
     def _mk_scripts(kinds_keys_errs):
-        """kinds_keys_errs: per thread list of (kind, key, err); values are made unique"""
+        """kinds_keys_errs: per thread list of (kind, key, err[, val]); values are made unique unless given"""
         scripts = []
         for t, sc in enumerate(kinds_keys_errs):
-            scripts.append([[k, key, 100 * (t + 1) + i + 1, e] for i, (k, key, e) in enumerate(sc)])
+            scripts.append([[x[0], x[1], (x[3] if len(x) > 3 else 100 * (t + 1) + i + 1), x[2]] for i, x in enumerate(sc)])
         return scripts
 
     def corpus(self):
@@ -95,69 +100,145 @@ class C07(Property):
         # GetResource: X is invoked and stops in front of singleflight; Y completes a whole call; X goes on
         cs.append({"scripts": self._mk_scripts([[(2, 1, 0)], [(2, 1, 0)]]), "sched": [0, 1, 1, 1, 0, 0]})
         cs.append({"scripts": self._mk_scripts([[(2, 1, 0)], [(2, 1, 4)], [(2, 1, 0)]]), "sched": [0, 2, 1, 1, 1, 2, 2, 2, 0, 0]})
+        # LockedCalls: A runs, B queues, A finishes (B runs), C arrives while B runs, D arrives when all is over
+        cs.append({"scripts": self._mk_scripts([[(1, 1, 0)], [(1, 1, 0)], [(1, 1, 0)], [(1, 1, 0)]]), "sched": [0, 1, 0, 2, 1, 2, 3, 3]})
+        # a panicking leader with a waiter, then a fresh call: every primitive and both cache call sites
+        for kind in (0, 3, 1, 4, 5, 8):
+            cs.append({"scripts": self._mk_scripts([[(kind, 1, PANIC)], [(kind, 1, 0)], [(kind, 1, 0)]]), "sched": [0, 1, 0, 2, 2, 1]})
+        cs.append({"scripts": self._mk_scripts([[(2, 1, PANIC)], [(2, 1, 0)], [(2, 1, 0)]]), "sched": [0, 1, 0, 1, 0, 2, 2, 2, 1]})
+        # two instances: the same key string in the second instance is independent
+        for kind in (0, 1, 2, 4, 5):
+            cs.append({"scripts": self._mk_scripts([[(kind, 1, 0)], [(kind, INST + 1, 0)], [(kind, 1, 0)]]),
+                       "sched": [0, 0, 1, 1, 2, 2, 0, 1]})
+        # cache node: not-found placeholder, query error (not cached), store down (fails fast), reload after del
+        cs.append({"scripts": self._mk_scripts([[(5, 1, NOTFOUND)], [(8, 1, 0)], [(5, 1, 0), (7, 1, 0), (8, 1, 0)]]),
+                   "sched": [0, 1, 0, 2, 2, 2, 2]})
+        cs.append({"scripts": self._mk_scripts([[(5, 1, 3), (5, 1, 0)], [(5, 1, 0), (9, 1, 0, 1), (5, 1, 0), (5, 2, 0), (9, 1, 0, 0), (5, 2, 0)]]),
+                   "sched": [0, 1, 0, 0, 0, 1, 1, 1, 1, 1, 1, 1]})
+        # ResourceManager as a sequential object: share, failed create retried, Inject, Close
+        cs.append({"rmseq": [[0, 1, 11, 0], [0, 1, 12, 0], [1, 1, 15, 0], [0, 1, 13, 0], [0, 2, 21, 3], [0, 2, 22, 0],
+                             [1, 3, 31, 0], [2, 0, 0, 0]]})
         return cs
 
     def _enumerated(self, rng, tier):
+        """forced schedules enumerated exhaustively at gate level.  A call has two gate-level steps
+        (enter the call up to the gate inside the user function or up to a block / leave the function and
+        return), GetResource three (invoke / enter singleflight / create returns).  With three callers of one
+        key every order of arrival is there: before the leader registered, while its function runs, after it
+        returned (the points between the function's return, the delete and wg.Done are not separable by user
+        callbacks: covered by the theorems only)."""
+        quick = tier == "quick"
         cases = []
         pats = {2: [(1, 1), (1, 2)], 3: [(1, 1, 1), (1, 1, 2), (1, 2, 1), (1, 2, 2)]}
-        for n in (2, 3):
-            for keys in pats[n]:
-                for sch in interleavings([2] * n):
-                    kind = 0
-                    cases.append({"scripts": self._mk_scripts([[(kind, k, 0)] for k in keys]), "sched": sch})
-        # ResourceManager: three gate-level steps per call (invoke / enter singleflight / create returns)
+
+        def errs(n, allow):
+            return [rng.choice(allow) for _ in range(n)]
+
+        # SingleFlight.DoEx / Do and LockedCalls.Do
+        for kind in (0, 1, 3):
+            for keys in pats[2]:
+                for sch in interleavings([2, 2]):
+                    for es in ((0, 0), (2, 0), (PANIC, 0)):
+                        cases.append({"scripts": self._mk_scripts([[(kind, k, e)] for k, e in zip(keys, es)]), "sched": sch})
+        for kind in (0, 1):
+            for keys in (pats[3][:2] if quick else pats[3]):
+                for sch in interleavings([2, 2, 2]):
+                    if quick and keys != (1, 1, 1) and rng.random() < 0.5:
+                        continue
+                    k2 = 3 if (kind == 0 and rng.random() < 0.3) else kind
+                    cases.append({"scripts": self._mk_scripts([[(k2, k, 0)] for k in keys]), "sched": sch})
+                    if not quick or rng.random() < 0.35:
+                        es = errs(3, [0, 0, 2, PANIC])
+                        cases.append({"scripts": self._mk_scripts([[(k2, k, e)] for k, e in zip(keys, es)]), "sched": sch})
+        # ResourceManager: three gate-level steps per call
         for keys in pats[2]:
             for sch in interleavings([3, 3]):
-                for errs in ((0, 0), (3, 0)):
-                    cases.append({"scripts": self._mk_scripts([[(2, k, e)] for k, e in zip(keys, errs)]), "sched": sch})
-        if tier != "quick":
-            rm3 = [s for s in interleavings([3, 3, 3])]
-            rng.shuffle(rm3)
-            for sch in rm3[:500]:
-                cases.append({"scripts": self._mk_scripts([[(2, 1, 0)], [(2, 1, 0)], [(2, 1, rng.choice([0, 0, 2]))]]), "sched": sch})
-        if tier != "quick":
+                for es in ((0, 0), (3, 0), (PANIC, 0)):
+                    cases.append({"scripts": self._mk_scripts([[(2, k, e)] for k, e in zip(keys, es)]), "sched": sch})
+        rm3 = [s for s in interleavings([3, 3, 3])]
+        rng.shuffle(rm3)
+        for sch in rm3[:60 if quick else 600]:
+            keys = rng.choice([(1, 1, 1), (1, 1, 1), (1, 1, 2)])
+            cases.append({"scripts": self._mk_scripts([[(2, k, e)] for k, e in zip(keys, errs(3, [0, 0, 0, 2, PANIC]))]), "sched": sch})
+        # the two users of the barrier: three readers of one key
+        c3 = [s for s in interleavings([2, 2, 2])]
+        rng.shuffle(c3)
+        for sch in c3[:40 if quick else 90]:
+            cases.append({"scripts": self._mk_scripts([[(4, 1, e)] for e in errs(3, [0, 0, 0, 2, PANIC])]), "sched": sch})
+        rng.shuffle(c3)
+        for sch in c3[:25 if quick else 90]:
+            cases.append({"scripts": self._mk_scripts([[(rng.choice([5, 8]), 1, e)] for e in errs(3, [0, 0, 0, 2, NOTFOUND, PANIC])]), "sched": sch})
+        # two instances of the primitive, same key string
+        rng.shuffle(c3)
+        for sch in c3[:30 if quick else 90]:
+            kind = rng.choice([0, 1, 3, 4])
+            cases.append({"scripts": self._mk_scripts([[(kind, k, 0)] for k in (1, INST + 1, rng.choice([1, INST + 1]))]), "sched": sch})
+        if not quick:
             for keys in [(1, 1, 1, 1), (1, 1, 2, 2), (1, 1, 1, 2)]:
                 for sch in interleavings([2] * 4):
-                    cases.append({"scripts": self._mk_scripts([[(0, k, 0)] for k in keys]), "sched": sch})
-            for keys in pats[3]:
-                for sch in interleavings([2] * 3):
-                    for kind in (1, 2):
-                        cases.append({"scripts": self._mk_scripts([[(kind, k, 0)] for k in keys]), "sched": sch})
+                    cases.append({"scripts": self._mk_scripts([[(rng.choice([0, 1]), k, 0)] for k in keys]), "sched": sch})
         return cases
 
+    def _rmseq_case(self, rng):
+        ops = []
+        nkeys = rng.choice([1, 2, 3])
+        n = rng.randint(2, 9)
+        for i in range(n):
+            r = rng.random()
+            v = 10 * (i + 1) + rng.randint(1, 9)     # ids divisible by 5 fail to Close
+            if r < 0.65:
+                ops.append([0, rng.randint(1, nkeys), v, rng.choice([0, 0, 0, 3])])
+            else:
+                ops.append([1, rng.randint(1, nkeys), v, 0])
+        ops.append([2, 0, 0, 0])
+        return {"rmseq": ops}
+
     def _cache_case(self, rng):
-        """the anchored users of the barrier: collection.Cache.Take (4) / cache node Take (5), with
-        invalidations (6 / 7) so that reloads happen"""
-        take = rng.choice([4, 4, 5])
-        dele = take + 2
+        """the anchored users of the barrier: collection.Cache.Take (4) / cache node Take, TakeWithExpire
+        (5, 8), with invalidations (6 / 7) so that reloads happen, loader errors, not-found (node: kept as a
+        placeholder), panicking loaders, a store that is down for a while (node), two instances"""
+        node = rng.random() < 0.4
         nthreads = rng.choice([2, 3, 3, 4])
         nkeys = rng.choice([1, 2, 2])
+        two = rng.random() < 0.2
+        faulty = node and rng.random() < 0.25
         sc = []
-        for _ in range(nthreads):
+        for t in range(nthreads):
             ops = []
             for _ in range(rng.choice([1, 2, 2, 3])):
+                key = rng.randint(1, nkeys) + (INST if two and rng.random() < 0.4 else 0)
                 if rng.random() < 0.2:
-                    ops.append((dele, rng.randint(1, nkeys), 0))
+                    ops.append((7 if node else 6, key, 0))
+                elif node:
+                    ops.append((rng.choice([5, 5, 8]), key, rng.choice([0, 0, 0, 0, 2, NOTFOUND, NOTFOUND, PANIC])))
                 else:
-                    ops.append((take, rng.randint(1, nkeys), rng.choice([0, 0, 0, 0, 2]) if take == 4 else 0))
+                    ops.append((4, key, rng.choice([0, 0, 0, 0, 2, 2, PANIC])))
             sc.append(ops)
+        if faulty:
+            # one thread switches the store off and on again
+            sc.append([(9, 1, 0, 1), (9, 1, 0, 0)])
+            nthreads += 1
         total = sum(len(x) for x in sc)
         sched = [rng.randrange(nthreads) for _ in range(rng.randint(total, 3 * total))]
         return {"scripts": self._mk_scripts(sc), "sched": sched}
 
     def _random(self, rng):
-        if rng.random() < 0.12:
+        r = rng.random()
+        if r < 0.22:
             return self._cache_case(rng)
-        nthreads = rng.choice([1, 2, 2, 3, 3, 4, 4, 5])
+        if r < 0.30:
+            return self._rmseq_case(rng)
+        nthreads = rng.choice([1, 2, 3, 3, 4, 4, 5])
         nkeys = rng.choice([1, 1, 2, 2, 3])
         mode = rng.choice([0, 0, 0, 3, 1, 1, 2, 2, "mix"])
+        two = rng.random() < 0.25
         sc = []
         for _ in range(nthreads):
             ops = []
             for _ in range(rng.choice([1, 1, 2, 2, 3])):
                 kind = rng.choice([0, 1, 2, 3]) if mode == "mix" else mode
-                err = rng.choice([0, 0, 0, 1, 2])
-                ops.append((kind, rng.randint(1, nkeys), err))
+                err = rng.choice([0, 0, 0, 0, 1, 2, PANIC])
+                ops.append((kind, rng.randint(1, nkeys) + (INST if two and rng.random() < 0.4 else 0), err))
             sc.append(ops)
         total = sum(len(x) for x in sc)
         sched = [rng.randrange(nthreads) for _ in range(rng.randint(total, 3 * total))]
@@ -165,11 +246,11 @@ class C07(Property):
 
     def gen(self, rng, n, tier):
         cases = [] if tier == "search" else self._enumerated(rng, tier)
-        if tier == "quick" and len(cases) > n * 3 // 5:
+        if tier == "quick" and len(cases) > n * 4 // 5:
             rng.shuffle(cases)
             # keep all 2-thread cases (first found) by sorting small first
             cases.sort(key=lambda c: len(c["scripts"]))
-            cases = cases[: n * 3 // 5]
+            cases = cases[: n * 4 // 5]
         while len(cases) < n:
             cases.append(self._random(rng))
         return cases
@@ -184,6 +265,10 @@ class C07(Property):
     @staticmethod
     def _digest(case, r):
         """controller output -> observation: steps (actor, skip, order, statuses) and event log"""
+        if "rmseq" in case:
+            if r.get("err") or len(r.get("rmobs") or []) != len(case["rmseq"]):
+                return {"err": r.get("err") or "short rmobs", "rmobs": r.get("rmobs") or []}
+            return {"rmobs": r["rmobs"]}
         nt = len(case["scripts"])
         if r.get("err"):
             return {"err": r["err"], "steps": [], "log": [], "forced": not case.get("free")}
@@ -211,13 +296,22 @@ class C07(Property):
                     sts.append([{"call": 0, "pre": 4}.get(x.get("l"), 3), x["op"]])
                 else:
                     sts.append([1, x["op"]])
-                    if not s["skip"] and not is_cache(case):
+                    if not s["skip"]:
                         log.append([lastt, t, 4, x["op"], 0, 0, 0])
             steps.append({"a": s["a"], "skip": s["skip"], "order": order, "st": sts})
+        # whoever is still blocked when the run is over (nothing parked any more) waits for ever
+        if steps:
+            for t, st in enumerate(steps[-1]["st"]):
+                if st[0] == 1:
+                    log.append([lastt + 1, t, 4, st[1], 0, 0, 0])
         return {"steps": steps, "log": log, "forced": not is_cache(case)}
 
     # ---- Coq rendering --------------------------------------------------------------------
     def coq_case(self, case, obs):
+        if "rmseq" in case:
+            ops = clist(["mkRmOp %s %s %s %s" % tuple(cz(x) for x in o) for o in case["rmseq"]])
+            ob = clist(["(%s, %s, %s)" % tuple(cz(x) for x in o) for o in obs.get("rmobs", [])])
+            return "RmSeq %s %s" % (ops, ob)
         scripts = clist([clist(["mkOp %s %s %s %s" % (KIND[o[0]], cz(o[1]), cz(o[2]), cz(o[3])) for o in sc])
                          for sc in case["scripts"]])
         steps = clist(["mkOStep %d%%nat %s %s %s" % (s["a"], cbool(s["skip"]),
@@ -229,13 +323,18 @@ class C07(Property):
         ok = "true" if obs.get("forced") and not obs.get("err") else "false"
         if obs.get("err"):
             # the implementation hung / did not quiesce: not a history of the model; make both fail
-            return "mkCase %s false true [mkOStep 0%%nat false [] []] [mkEv 0 0%%nat 2 0%%nat 0 0 0]" % scripts
-        return "mkCase %s %s %s %s %s" % (scripts, cbool(is_cache(case)), ok, steps, log)
+            return "Conc (mkCase %s false true [mkOStep 0%%nat false [] []] [mkEv 0 0%%nat 2 0%%nat 0 0 0])" % scripts
+        if is_cache(case):
+            steps = "[]"     # the LTS is not driven for the cache call sites: only the event log is judged
+        return "Conc (mkCase %s %s %s %s %s)" % (scripts, cbool(is_cache(case)), ok, steps, log)
 
     def coq_preamble(self):
         return "Open Scope nat_scope.\nOpen Scope Z_scope.\n"
 
     def nontrivial(self, case, obs):
+        if "rmseq" in case:
+            # some GetResource was answered without calling create
+            return any(o[0] == 0 and b[2] == 0 for o, b in zip(case["rmseq"], obs.get("rmobs", [])))
         if any(e[2] == 4 for e in obs.get("log", [])):
             return True
         # cache call sites: some caller got a value it did not load itself
@@ -243,11 +342,21 @@ class C07(Property):
                                       e[4] != case["scripts"][e[1]][e[3]][2] for e in obs.get("log", []))
 
     def features(self, case, obs):
+        if "rmseq" in case:
+            ks = set(o[0] for o in case["rmseq"])
+            return ["rmseq"] + ["rmseq.%s" % {0: "get", 1: "inject", 2: "close"}[k] for k in sorted(ks)]
         fs = ["threads=%d" % len(case["scripts"])]
         kinds = set(o[0] for sc in case["scripts"] for o in sc)
-        fs += ["kind=%s" % {0: "sf.DoEx", 1: "lc.Do", 2: "rm.Get", 3: "sf.Do", 4: "collection.Cache.Take",
-                            5: "cachenode.Take", 6: "collection.Cache.Del", 7: "cachenode.Del"}[k] for k in sorted(kinds)]
-        fs.append("keys=%d" % len(set(o[1] for sc in case["scripts"] for o in sc)))
+        fs += ["kind=%s" % KNAME[k] for k in sorted(kinds)]
+        fs.append("keys=%d" % len(set(o[1] % INST for sc in case["scripts"] for o in sc)))
+        if any(o[1] >= INST for sc in case["scripts"] for o in sc):
+            fs.append("two_instances")
+        if any(o[3] == PANIC and o[0] not in (6, 7, 9) for sc in case["scripts"] for o in sc):
+            fs.append("has_panicking_fn")
+        if any(e[2] == 3 and e[5] == NOTFOUND for e in obs.get("log", [])):
+            fs.append("has_notfound")
+        if any(e[2] == 6 for e in obs.get("log", [])):
+            fs.append("has_store_fault")
         fs.append("steps<=%d" % (10 * (1 + len(obs.get("steps", [])) // 10)))
         if any(e[2] == 4 for e in obs.get("log", [])):
             fs.append("has_blocked")
@@ -260,6 +369,9 @@ class C07(Property):
         return fs
 
     def shrink_candidates(self, case):
+        if "rmseq" in case:
+            ops = case["rmseq"]
+            return [{"rmseq": ops[:i] + ops[i + 1:]} for i in range(len(ops))]
         res = []
         sc, sched = case["scripts"], case["sched"]
         for t in range(len(sc)):
@@ -279,11 +391,15 @@ class C07(Property):
         return res[:150]
 
     def describe_failure(self, case, obs):
+        if "rmseq" in case:
+            return ("ResourceManager used sequentially: create called although the key had an instance, a second "
+                    "successful creation, a GetResource that did not hand out the current instance, or Close did not "
+                    "close every resource exactly once (%s)" % (obs.get("err") or obs.get("rmobs")))
         if obs.get("err"):
             return "the implementation did not reach quiescence / hung under the forced schedule: %s" % obs["err"]
         return ("the observed event log violates C07: overlapping executions for one key, a stale or foreign result, "
                 "fresh reported wrongly, a LockedCalls caller whose own function did not run exactly once, a thread "
-                "blocked behind another key, or a resource created twice")
+                "blocked behind another key / another instance or left blocked for ever, or a resource created twice")
 
     # ---- free-running -race monitor (thorough tier) -------------------------------------------
     def extra(self, ctx):
@@ -297,9 +413,13 @@ class C07(Property):
         cases = []
         for i in range(400):
             c = self._random(rng)
+            while "rmseq" in c:
+                c = self._random(rng)
             # more threads, same keys: contention
             c["scripts"] = c["scripts"] * rng.choice([1, 2, 3])
-            c["scripts"] = self._mk_scripts([[(o[0], o[1], o[3]) for o in sc] for sc in c["scripts"]])
+            # (no store faults in free mode: the executor's fault flag is not synchronised)
+            c["scripts"] = self._mk_scripts([[(o[0], o[1], o[3]) for o in sc if o[0] != 9] for sc in c["scripts"]])
+            c["scripts"] = [sc for sc in c["scripts"] if sc]
             c["sched"] = []
             c["free"] = True
             c["spin"] = rng.choice([0, 1, 5, 20])
